@@ -17,13 +17,13 @@ RULE = (
     "polynomial boundary integral of the reference (Fractions for rational data) summed over the boundary curves. "
     "Rational polygons must give the exact rational (type int/Fraction); float polygons 1e-11 relative to the sum "
     "of absolute piece contributions; curved boundaries exact-to-rounding where the integrand degree is within the "
-    "degree of exactness of the documented node count (always for the area), only gross errors for a+b <= 6 (25 % of the absolute "
-    "contributions) otherwise, and 1e-9 when nnodes is raised to cover the integrand. An evaluation is one (shape, a, b, entry "
+    "degree of exactness of the documented node count (always for the area); where it is not exact the error may not exceed the error of the documented default rule itself (open Newton-Cotes on 4+a+b+degree nodes, evaluated exactly by the reference, summed over the segments without cancellation), "
+    "and 1e-9 when nnodes is raised to cover the integrand. An evaluation is one (shape, a, b, entry "
     "point); it is non-trivial when (a,b) != (0,0) or the shape has several boundary curves or a curved segment."
 )
 MANDATORY = ["kind:simple+", "kind:simple-", "kind:connected+", "kind:connected-", "kind:disjoint+", "kind:disjoint-",
              "exact-rational", "float-polygon", "curved-exact-rule", "curved-quadrature", "curved-raised-nnodes", "after-transform"]
-CONSTANTS = {"float_rel": 1e-11, "quadrature_gross_rel": 0.25, "raised_rel": 1e-9}
+CONSTANTS = {"float_rel": 1e-11, "raised_rel": 1e-9}
 
 
 def _abs_scale(curves, a, b):
@@ -42,6 +42,51 @@ def _abs_scale(curves, a, b):
                 acc += abs(p[0] ** (a + 1) * p[1] ** b * dy)
             total += acc / n
     return total / (a + 1) + 1e-300
+
+
+_NC = {}
+
+
+def _open_nc_weights(n):
+    """weights of the interpolatory rule on the library's open nodes
+    (2k+1)/(2n), k = 0..n-1, on [0, 1] (exact Fractions)"""
+    if n not in _NC:
+        nodes = [F(2 * k + 1, 2 * n) for k in range(n)]
+        # solve sum_k w_k u_k^j = 1/(j+1), j = 0..n-1 (Gauss-Jordan, exact)
+        M = [[u ** j for u in nodes] + [F(1, j + 1)] for j in range(n)]
+        for c in range(n):
+            piv = next(r for r in range(c, n) if M[r][c] != 0)
+            M[c], M[piv] = M[piv], M[c]
+            pv = M[c][c]
+            M[c] = [v / pv for v in M[c]]
+            for r in range(n):
+                if r != c and M[r][c] != 0:
+                    f = M[r][c]
+                    M[r] = [vr - f * vc for vr, vc in zip(M[r], M[c])]
+        _NC[n] = (nodes, [M[r][n] for r in range(n)])
+    return _NC[n]
+
+
+def documented_rule_error(curves, a, b):
+    """sum over the segments of |Q_n(f) - I(f)| for the documented default
+    rule (open Newton-Cotes on 4+a+b+degree nodes for the shape integral of
+    x^a y^b, i.e. f = x^(a+1) y^b y' / (a+1)): what 'quadrature accuracy'
+    means where the rule is not exact.  A library at least as accurate as its
+    documented rule stays within it; no cancellation between segments is
+    assumed."""
+    total = 0.0
+    for c in curves:
+        for seg in c:
+            deg = len(seg) - 1
+            xs = [rg.ex(q[0]) for q in seg] if rg.curve_is_exact([seg]) else [F(float(q[0])) for q in seg]
+            ys = [rg.ex(q[1]) for q in seg] if rg.curve_is_exact([seg]) else [F(float(q[1])) for q in seg]
+            px, py = rg.bez_to_poly(xs), rg.bez_to_poly(ys)
+            integrand = rg.pmul(rg.pmul(rg.ppow(px, a + 1), rg.ppow(py, b)), rg.pder(py))
+            exact = rg.pint01(integrand, True)
+            nodes, w = _open_nc_weights(4 + a + b + deg)
+            q = sum(wk * sum(cf * u ** i for i, cf in enumerate(integrand)) for u, wk in zip(nodes, w))
+            total += abs(float(q - exact)) / (a + 1)
+    return total
 
 
 def _rule_exact(deg, a, b):
@@ -111,13 +156,13 @@ def judge(ctx, case):
                 # of the quadrature, not of the implementation (observed up to
                 # 6e-3 of the absolute contributions at a+b = 4 on cubics): only
                 # gross errors are judged here; the raised-nnodes check decides
-                tol = (1e-11 if exact_rule else 0.25) * scale
-                if not exact_rule and a + b > 6:
-                    # the 25 % bound was measured for a+b <= 6; beyond, the
-                    # default rule (open Newton-Cotes, 14+ nodes on an
-                    # integrand of degree 17..29) is only counted
-                    ctx.count("default-rule-not-judged(a+b>6)")
-                elif abs(float(got) - float(ref)) > tol:
+                if exact_rule:
+                    tol = 1e-11 * scale
+                else:
+                    # "quadrature accuracy": at least as accurate as the
+                    # documented default rule is on these very segments
+                    tol = 1e-9 * scale + 1.000001 * documented_rule_error(curves, a, b)
+                if abs(float(got) - float(ref)) > tol:
                     ctx.violation("integral", "curved-exact" if exact_rule else "curved-quadrature", sub,
                                   "%s(%d,%d) = %r, reference %r, tol %r" % (name, a, b, float(got), float(ref), tol), kind)
         # raised node count: the rule covers the integrand -> exact to rounding
